@@ -14,6 +14,7 @@
     Attribute.__set__ and Entity.set (index part, status / write bits, undo)    -> setAttrs
     Attribute.__get__ (read bit)                                    -> read
     Entity._delete_ (index removal; `created` -> `cancelled` frees the primary key) -> delete
+    a cascading Entity._delete_ refused after its nested deletes ran (undo_list / undo_funcs)   -> cascadeFail / undoDelete
     Entity._save_created_ (auto pk: `setdefault(new_id, obj)`), _update_dbvals_, _save_updated_, _save_deleted_ -> saveCreated/…
     EntityMeta._find_in_cache_ (pk, simple keys, composite keys, status / value checks, read bits) -> find
     EntityProxy._get_object                                         -> proxy
@@ -361,6 +362,33 @@ def delete (sch : Schema) (s : Sess) (o : ObjId) : Sess × Res :=
         ({ s with obj := setObj s.obj o { ob with status := .markedToDelete }, ixs := ixs',
                   queue := s.queue.erase o ++ [o] }, {})
 
+/-- what `undo_func` of one `_delete_` puts back: the object record (status, save position), `objects_to_save`, and
+    `for cache_index, old_key in undo_list: cache_index[old_key] = obj` (primary key of a `created` object, every key tuple) -/
+structure DelRec where
+  o : ObjId
+  noop : Bool                 -- the object was already deleted: `_delete_` returned before registering anything
+  ob : Obj                    -- the object before
+  queue : List ObjId          -- `objects_to_save` before
+
+def delRec (s : Sess) (o : ObjId) : DelRec :=
+  { o := o, noop := decide (o ≥ s.n) || (s.obj o).status.isDel, ob := s.obj o, queue := s.queue }
+
+def undoDelete (sch : Schema) (s : Sess) (r : DelRec) : Sess :=
+  if r.noop then s
+  else { s with obj := setObj s.obj r.o r.ob, queue := r.queue,
+                pkIx := s.pkIx.setOpt (if r.ob.status = .created then r.ob.pk else none) r.o,
+                ixs := fun i => (s.ixs i).setOpt (kv sch r.ob.vals i) r.o }
+
+/-- `parent._delete_()` that cascades to `children` (each `child._delete_(undo_funcs)` runs completely: index pops, status,
+    queue) and is then REFUSED by a later collection (`ConstraintError`): `for undo_func in reversed(undo_funcs): undo_func()`.
+    The recursion nests exactly like the reversed undo list: delete c₁, (delete c₂, (…), undo c₂), undo c₁. -/
+def cascadeGo (sch : Schema) (s : Sess) : List ObjId → Sess
+  | [] => s
+  | c :: cs => undoDelete sch (cascadeGo sch (delete sch s c).1 cs) (delRec s c)
+
+def cascadeFail (sch : Schema) (s : Sess) (children : List ObjId) : Sess × Res :=
+  (cascadeGo sch s children, { err := some .constraint })
+
 /-- `Entity._save_created_` after the INSERT succeeded; `newId` = the id the database generated -/
 def saveCreated (s : Sess) (o : ObjId) (newId : Option Int) : Sess × Res :=
   if o ≥ s.n then (s, { err := some .badOp })
@@ -476,6 +504,7 @@ inductive Op
   | find (cls : Nat) (pk : Option KeyVal) (kw : List (Nat × Int))
   | proxy (o : ObjId)
   | markRead (os : List ObjId) (attrs : List Nat)
+  | cascadeFail (children : List ObjId)
 deriving Repr
 
 def stepR (sch : Schema) (s : Sess) : Op → Sess × Res
@@ -491,6 +520,7 @@ def stepR (sch : Schema) (s : Sess) : Op → Sess × Res
   | .find c pk kw => find sch s c pk kw
   | .proxy o => proxy s o
   | .markRead os attrs => markRead s os attrs
+  | .cascadeFail cs => cascadeFail sch s cs
 
 def step (sch : Schema) (s : Sess) (op : Op) : Sess := (stepR sch s op).1
 
